@@ -1,9 +1,699 @@
 (** C09 – proofs about the spelling algebra model (Dict/Algebra.v). *)
-From Coq Require Import List NArith ZArith Bool Arith Lia.
+From Coq Require Import List NArith ZArith Bool Arith Lia Sorted.
 From Coq.Strings Require Import Byte.
 From RimeV Require Import Base.Bytes Dict.Algebra.
 Import ListNotations.
 
-Lemma kind_flags_non_deleting k :
-  kind_deletion k = false <-> (k = Derive \/ k = Fuzz \/ k = Abbrev).
-Proof. destruct k; cbn; intuition congruence. Qed.
+(** * Bytes: equality and order *)
+
+Lemma N_of_byte_inj a b : N_of_byte a = N_of_byte b -> a = b.
+Proof.
+  intro H. rewrite <- (byte_of_N_of_byte a), <- (byte_of_N_of_byte b). now rewrite H.
+Qed.
+
+Lemma byte_eqb_eq a b : byte_eqb a b = true <-> a = b.
+Proof.
+  unfold byte_eqb. rewrite N.eqb_eq. split; [apply N_of_byte_inj | now intros ->].
+Qed.
+
+Lemma byte_eqb_refl a : byte_eqb a a = true.
+Proof. now apply byte_eqb_eq. Qed.
+
+Lemma bytes_eqb_eq a b : bytes_eqb a b = true <-> a = b.
+Proof.
+  revert b. induction a as [|x a IH]; intros [|y b]; cbn; try (split; congruence).
+  rewrite andb_true_iff, byte_eqb_eq, IH. split; [intros [-> ->] | intros [= -> ->]]; auto.
+Qed.
+
+Lemma bytes_eqb_refl a : bytes_eqb a a = true.
+Proof. now apply bytes_eqb_eq. Qed.
+
+Lemma bytes_eqb_neq a b : bytes_eqb a b = false <-> a <> b.
+Proof.
+  split.
+  - intros H E. apply bytes_eqb_eq in E. congruence.
+  - intro H. destruct (bytes_eqb a b) eqn:E; auto. apply bytes_eqb_eq in E. contradiction.
+Qed.
+
+Lemma bytes_cmp_eq a b : bytes_cmp a b = Eq <-> a = b.
+Proof.
+  revert b. induction a as [|x a IH]; intros [|y b]; cbn; try (split; congruence).
+  destruct (N.compare (N_of_byte x) (N_of_byte y)) eqn:C.
+  - apply N.compare_eq in C. apply N_of_byte_inj in C. subst. rewrite IH.
+    split; [intros -> | intros [= ->]]; auto.
+  - split; [discriminate|]. intros [= -> ->]. rewrite N.compare_refl in C. discriminate.
+  - split; [discriminate|]. intros [= -> ->]. rewrite N.compare_refl in C. discriminate.
+Qed.
+
+Lemma bytes_cmp_refl a : bytes_cmp a a = Eq.
+Proof. now apply bytes_cmp_eq. Qed.
+
+Lemma bytes_cmp_antisym a b : bytes_cmp b a = CompOpp (bytes_cmp a b).
+Proof.
+  revert b. induction a as [|x a IH]; intros [|y b]; cbn; auto.
+  rewrite (N.compare_antisym (N_of_byte x) (N_of_byte y)).
+  destruct (N.compare (N_of_byte x) (N_of_byte y)); cbn; auto.
+Qed.
+
+Definition blt (a b : bytes) : Prop := bytes_cmp a b = Lt.
+
+Lemma blt_trans a b c : blt a b -> blt b c -> blt a c.
+Proof.
+  unfold blt. revert b c. induction a as [|x a IH]; intros [|y b] [|z c]; cbn; try congruence.
+  destruct (N.compare (N_of_byte x) (N_of_byte y)) eqn:C1; try discriminate;
+  destruct (N.compare (N_of_byte y) (N_of_byte z)) eqn:C2; try discriminate; intros H1 H2.
+  - apply N.compare_eq in C1, C2. rewrite C1, C2, N.compare_refl. eauto.
+  - apply N.compare_eq in C1. rewrite C1, C2. reflexivity.
+  - apply N.compare_eq in C2. rewrite <- C2, C1. reflexivity.
+  - rewrite N.compare_lt_iff in C1, C2.
+    assert (C3 : (N_of_byte x < N_of_byte z)%N) by lia.
+    apply N.compare_lt_iff in C3. now rewrite C3.
+Qed.
+
+Lemma blt_irrefl a : ~ blt a a.
+Proof. unfold blt. rewrite bytes_cmp_refl. discriminate. Qed.
+
+Lemma bytes_cmp_gt_lt a b : bytes_cmp a b = Gt -> blt b a.
+Proof. unfold blt. intro H. rewrite bytes_cmp_antisym, H. reflexivity. Qed.
+
+(** * Sorted key lists *)
+
+Definition ssorted (l : list bytes) : Prop := StronglySorted blt l.
+Definition script_ok (sc : script) : Prop := ssorted (map fst sc).
+
+Lemma ssorted_NoDup l : ssorted l -> NoDup l.
+Proof.
+  induction 1 as [|a l Hs IH Hf]; constructor; auto.
+  intro Hin. rewrite Forall_forall in Hf. apply (blt_irrefl a). auto.
+Qed.
+
+Lemma map_upd_keys_sorted k f sc : script_ok sc -> script_ok (map_upd k f sc).
+Proof.
+  unfold script_ok, ssorted. induction sc as [|[k' v] sc IH]; cbn; intro H.
+  - repeat constructor.
+  - inversion H as [|a l Hs Hf]; subst.
+    destruct (bytes_cmp k k') eqn:C; cbn.
+    + constructor; auto.
+    + constructor; auto. constructor; auto.
+      rewrite Forall_forall in *. intros x Hx. eapply blt_trans; [exact C|]. auto.
+    + constructor; auto.
+      rewrite Forall_forall in *. intros x Hx.
+      assert (Hk : forall y, In y (map fst (map_upd k f sc)) -> y = k \/ In y (map fst sc)).
+      { clear. induction sc as [|[k2 v2] sc IH]; cbn; intros y Hy.
+        - destruct Hy as [<-|[]]; auto.
+        - destruct (bytes_cmp k k2); cbn in Hy.
+          + destruct Hy as [<-|Hy]; auto.
+          + destruct Hy as [<-|[<-|Hy]]; auto.
+          + destruct Hy as [<-|Hy]; auto. destruct (IH _ Hy); auto. }
+      destruct (Hk _ Hx) as [->|Hin]; auto. now apply bytes_cmp_gt_lt.
+Qed.
+
+Lemma map_find_In k sc l : map_find k sc = Some l -> In (k, l) sc.
+Proof.
+  induction sc as [|[k' v] sc IH]; cbn; [discriminate|].
+  destruct (bytes_eqb k k') eqn:E.
+  - apply bytes_eqb_eq in E. subst. intros [= ->]. auto.
+  - auto.
+Qed.
+
+Lemma map_find_None k sc : map_find k sc = None -> forall l, ~ In (k, l) sc.
+Proof.
+  induction sc as [|[k' v] sc IH]; cbn; [auto|].
+  destruct (bytes_eqb k k') eqn:E; [discriminate|].
+  intros H l [Hin|Hin].
+  - inversion Hin; subst. rewrite bytes_eqb_refl in E. discriminate.
+  - eapply IH; eauto.
+Qed.
+
+Lemma In_map_find k l sc : script_ok sc -> In (k, l) sc -> map_find k sc = Some l.
+Proof.
+  unfold script_ok. induction sc as [|[k' v] sc IH]; cbn; [tauto|].
+  intros Hs Hin. inversion Hs as [|a m Hs' Hf]; subst.
+  destruct Hin as [Hin|Hin].
+  - inversion Hin; subst. now rewrite bytes_eqb_refl.
+  - destruct (bytes_eqb k k') eqn:E.
+    + apply bytes_eqb_eq in E. subst. exfalso.
+      rewrite Forall_forall in Hf. apply (blt_irrefl k'), Hf.
+      change k' with (fst (k', l)). now apply in_map.
+    + auto.
+Qed.
+
+(** * map_upd: what stays, what is new (no sortedness needed) *)
+
+Lemma map_upd_Forall (Q : bytes * list spelling -> Prop) k f sc :
+  Forall Q sc -> Q (k, f []) -> (forall v, Q (k, v) -> Q (k, f v)) ->
+  Forall Q (map_upd k f sc).
+Proof.
+  intros H H0 Hf. induction sc as [|[k' v] sc IH]; cbn.
+  - auto.
+  - inversion H; subst. destruct (bytes_cmp k k') eqn:C.
+    + apply bytes_cmp_eq in C. subst. auto.
+    + auto.
+    + auto.
+Qed.
+
+(** every old entry survives, possibly with its list passed through [f] *)
+Lemma map_upd_old k f sc k0 l0 :
+  In (k0, l0) sc -> In (k0, l0) (map_upd k f sc) \/ (k0 = k /\ In (k0, f l0) (map_upd k f sc)).
+Proof.
+  induction sc as [|[k' v] sc IH]; cbn; [tauto|].
+  intros [Hin|Hin].
+  - inversion Hin; subst. destruct (bytes_cmp k k0) eqn:C; cbn; auto.
+    apply bytes_cmp_eq in C. subst. auto.
+  - destruct (bytes_cmp k k'); cbn; auto.
+    destruct (IH Hin) as [H|[-> H]]; auto.
+Qed.
+
+(** the updated key is present with [f] of something *)
+Lemma map_upd_new k f sc :
+  exists l0, In (k, f l0) (map_upd k f sc) /\ (l0 = [] \/ In (k, l0) sc).
+Proof.
+  induction sc as [|[k' v] sc IH]; cbn.
+  - exists []. auto.
+  - destruct (bytes_cmp k k') eqn:C.
+    + apply bytes_cmp_eq in C. subst. exists v. cbn. auto.
+    + exists []. cbn. auto.
+    + destruct IH as (l0 & H1 & H2). exists l0. cbn. split; auto. destruct H2; auto.
+Qed.
+
+(** * Merge *)
+
+(** [x'] is at least as good as [x]: same syllable, type no worse, credibility no lower. *)
+Definition le_sp (x' x : spelling) : Prop :=
+  sstr x' = sstr x /\ ptype (sprops x') <= ptype (sprops x) /\ (pcred (sprops x) <= pcred (sprops x'))%Z.
+
+Lemma le_sp_refl x : le_sp x x.
+Proof. unfold le_sp. repeat split; lia. Qed.
+
+Lemma le_sp_trans a b c : le_sp a b -> le_sp b c -> le_sp a c.
+Proof. unfold le_sp. intros (A1 & A2 & A3) (B1 & B2 & B3). repeat split; [congruence|lia|lia]. Qed.
+
+Lemma improve_le_z z y : le_sp (improve z y) z.
+Proof.
+  unfold le_sp, improve. cbn [sstr sprops ptype pcred ptips]. repeat split.
+  - destruct (ptype (sprops y) <? ptype (sprops z)) eqn:E; [apply Nat.ltb_lt in E|apply Nat.ltb_ge in E]; lia.
+  - destruct (pcred (sprops z) <? pcred (sprops y))%Z eqn:E; [apply Z.ltb_lt in E|apply Z.ltb_ge in E]; lia.
+Qed.
+
+Lemma improve_le_y z y : sstr z = sstr y -> le_sp (improve z y) y.
+Proof.
+  unfold le_sp, improve. cbn [sstr sprops ptype pcred ptips]. intro Hs. repeat split; auto.
+  - destruct (ptype (sprops y) <? ptype (sprops z)) eqn:E; [apply Nat.ltb_lt in E|apply Nat.ltb_ge in E]; lia.
+  - destruct (pcred (sprops z) <? pcred (sprops y))%Z eqn:E; [apply Z.ltb_lt in E|apply Z.ltb_ge in E]; lia.
+Qed.
+
+Lemma adjust_str sp x : sstr (adjust sp x) = sstr x.
+Proof. reflexivity. Qed.
+
+Lemma adjust_default_le x : le_sp (adjust default_props x) x.
+Proof. unfold le_sp, adjust. cbn. repeat split; lia. Qed.
+
+Lemma merge_into_old m x y z :
+  In z m -> exists z', In z' (merge_into m x y) /\ le_sp z' z.
+Proof.
+  induction m as [|w m IH]; cbn; [tauto|].
+  intros [->|Hin].
+  - destruct (bytes_eqb (sstr z) (sstr x)).
+    + exists (improve z y). split; [left; auto|apply improve_le_z].
+    + exists z. split; [left; auto|apply le_sp_refl].
+  - destruct (bytes_eqb (sstr w) (sstr x)).
+    + exists z. split; [right; auto|apply le_sp_refl].
+    + destruct (IH Hin) as (z' & H1 & H2). exists z'. split; [right; auto|auto].
+Qed.
+
+Lemma merge_into_new m x y :
+  sstr y = sstr x -> exists z', In z' (merge_into m x y) /\ le_sp z' y.
+Proof.
+  intro Hs. induction m as [|w m IH]; cbn.
+  - exists y. split; [left; auto|apply le_sp_refl].
+  - destruct (bytes_eqb (sstr w) (sstr x)) eqn:E.
+    + apply bytes_eqb_eq in E. exists (improve w y). split; [left; auto|].
+      apply improve_le_y. congruence.
+    + destruct IH as (z' & H1 & H2). exists z'. split; [right; auto|auto].
+Qed.
+
+(** every element of the result comes from [m] or is the new [y] (by syllable) *)
+Lemma merge_into_strs m x y z :
+  sstr y = sstr x -> In z (merge_into m x y) -> (exists w, In w m /\ sstr w = sstr z) \/ sstr z = sstr x.
+Proof.
+  intro Hs. induction m as [|w m IH]; cbn.
+  - intros [<-|[]]. auto.
+  - destruct (bytes_eqb (sstr w) (sstr x)) eqn:E.
+    + intros [<-|Hin].
+      * left. exists w. cbn. auto.
+      * left. exists z. auto.
+    + intros [<-|Hin].
+      * left. exists w. auto.
+      * destruct (IH Hin) as [(w' & H1 & H2)|H]; auto. left. exists w'. auto.
+Qed.
+
+Lemma merge_into_nonempty m x y : merge_into m x y <> [].
+Proof. destruct m as [|w m]; cbn; [discriminate|]. destruct (bytes_eqb _ _); discriminate. Qed.
+
+Lemma merge_list_old sp v m z :
+  In z m -> exists z', In z' (merge_list sp v m) /\ le_sp z' z.
+Proof.
+  unfold merge_list. revert m z. induction v as [|x v IH]; cbn; intros m z Hin.
+  - exists z. split; auto. apply le_sp_refl.
+  - destruct (merge_into_old m x (adjust sp x) z Hin) as (z1 & H1 & H2).
+    destruct (IH _ _ H1) as (z2 & H3 & H4). exists z2. split; auto.
+    eapply le_sp_trans; eauto.
+Qed.
+
+Lemma merge_list_new sp v m x :
+  In x v -> exists z', In z' (merge_list sp v m) /\ le_sp z' (adjust sp x).
+Proof.
+  unfold merge_list. revert m. induction v as [|x0 v IH]; cbn; intros m Hin; [tauto|].
+  destruct Hin as [->|Hin].
+  - destruct (merge_into_new m x (adjust sp x) (adjust_str sp x)) as (z1 & H1 & H2).
+    destruct (merge_list_old sp v _ _ H1) as (z2 & H3 & H4).
+    exists z2. split; [exact H3|]. eapply le_sp_trans; eauto.
+  - apply IH. exact Hin.
+Qed.
+
+Lemma merge_list_strs sp v m z :
+  In z (merge_list sp v m) ->
+  (exists w, In w m /\ sstr w = sstr z) \/ (exists x, In x v /\ sstr x = sstr z).
+Proof.
+  unfold merge_list. revert m. induction v as [|x v IH]; cbn; intros m Hin.
+  - left. exists z. auto.
+  - destruct (IH _ Hin) as [(w & H1 & H2)|(x' & H1 & H2)].
+    + destruct (merge_into_strs m x (adjust sp x) w (adjust_str sp x) H1) as [(w' & H3 & H4)|H3].
+      * left. exists w'. split; auto. congruence.
+      * right. exists x. split; auto. congruence.
+    + right. exists x'. auto.
+Qed.
+
+Lemma merge_list_nonempty sp v m : (v <> [] \/ m <> []) -> merge_list sp v m <> [].
+Proof.
+  unfold merge_list. revert m. induction v as [|x v IH]; cbn; intros m H.
+  - destruct H; congruence.
+  - apply IH. right. apply merge_into_nonempty.
+Qed.
+
+(** * Coverage: a (spelling, syllable) pair is present at least as good as [x] *)
+
+Definition covers (sc : script) (k : bytes) (x : spelling) : Prop :=
+  exists l x', In (k, l) sc /\ In x' l /\ le_sp x' x.
+
+Lemma merge_covers_old s sp v sc k x : covers sc k x -> covers (merge s sp v sc) k x.
+Proof.
+  intros (l & x' & H1 & H2 & H3). unfold merge.
+  destruct (map_upd_old s (merge_list sp v) sc k l H1) as [H|[-> H]].
+  - exists l, x'. auto.
+  - destruct (merge_list_old sp v l x' H2) as (z & Hz1 & Hz2).
+    exists (merge_list sp v l), z. split; [auto|split; [auto|eapply le_sp_trans; eauto]].
+Qed.
+
+Lemma merge_covers_new s sp v sc x : In x v -> covers (merge s sp v sc) s (adjust sp x).
+Proof.
+  intro Hin. unfold merge.
+  destruct (map_upd_new s (merge_list sp v) sc) as (l0 & H1 & _).
+  destruct (merge_list_new sp v l0 x Hin) as (z & Hz1 & Hz2).
+  exists (merge_list sp v l0), z. auto.
+Qed.
+
+Lemma covers_le sc k x y : covers sc k x -> le_sp x y -> covers sc k y.
+Proof.
+  intros (l & x' & H1 & H2 & H3) H. exists l, x'. split; [auto|split; [auto|eapply le_sp_trans; eauto]].
+Qed.
+
+(** * One round *)
+
+Lemma round_step_covers_old c temp kv k x :
+  covers temp k x -> covers (round_step c temp kv) k x.
+Proof.
+  intro H. destruct kv as [k0 v]. cbn.
+  destruct (capply c k0) as [s|].
+  - assert (H1 : covers (if deletion c then temp else merge k0 default_props v temp) k x).
+    { destruct (deletion c); auto. now apply merge_covers_old. }
+    destruct (addition c && negb (is_nil (sstr s))); auto. now apply merge_covers_old.
+  - now apply merge_covers_old.
+Qed.
+
+Lemma fold_round_step_covers_old c sc temp k x :
+  covers temp k x -> covers (fold_left (round_step c) sc temp) k x.
+Proof.
+  revert temp. induction sc as [|kv sc IH]; cbn; intros temp H; auto.
+  apply IH. now apply round_step_covers_old.
+Qed.
+
+(** the heart of clauses (b) and (c): an entry whose key the rule does not match,
+    or any entry under a non-deleting rule, is carried over *)
+Lemma round_keeps c sc k v x :
+  In (k, v) sc -> In x v -> (capply c k = None \/ deletion c = false) ->
+  covers (round c sc) k x.
+Proof.
+  unfold round. generalize (@nil (bytes * list spelling)) as temp.
+  induction sc as [|kv sc IH]; cbn; intros temp Hin Hx Hc; [tauto|].
+  destruct Hin as [->|Hin].
+  - apply fold_round_step_covers_old. cbn.
+    assert (Hm : covers (merge k default_props v temp) k x).
+    { eapply covers_le; [apply merge_covers_new; exact Hx|apply adjust_default_le]. }
+    destruct (capply c k) as [s|] eqn:E.
+    + destruct Hc as [Hc|Hc]; [discriminate|]. rewrite Hc.
+      destruct (addition c && negb (is_nil (sstr s))); auto. now apply merge_covers_old.
+    + exact Hm.
+  - now apply IH.
+Qed.
+
+(** * Invariants of every script the algebra can produce *)
+
+Definition entry_ok (syls : list bytes) (kv : bytes * list spelling) : Prop :=
+  fst kv <> [] /\ snd kv <> [] /\ forall x, In x (snd kv) -> In (sstr x) syls.
+
+Lemma merge_entry_ok syls s sp v sc :
+  s <> [] -> v <> [] -> (forall x, In x v -> In (sstr x) syls) ->
+  Forall (entry_ok syls) sc -> Forall (entry_ok syls) (merge s sp v sc).
+Proof.
+  intros Hs Hv Hin H. unfold merge. apply map_upd_Forall; auto.
+  - unfold entry_ok. cbn. repeat split; auto.
+    + apply merge_list_nonempty. auto.
+    + intros x Hx. destruct (merge_list_strs _ _ _ _ Hx) as [(w & [] & _)|(x' & H1 & H2)].
+      rewrite <- H2. auto.
+  - unfold entry_ok. cbn. intros l (_ & Hl & Hl2). repeat split; auto.
+    + apply merge_list_nonempty. auto.
+    + intros x Hx. destruct (merge_list_strs _ _ _ _ Hx) as [(w & H1 & H2)|(x' & H1 & H2)];
+        rewrite <- H2; auto.
+Qed.
+
+Lemma round_entry_ok syls c sc :
+  Forall (entry_ok syls) sc -> Forall (entry_ok syls) (round c sc).
+Proof.
+  intro H. unfold round.
+  assert (G : forall l temp, Forall (entry_ok syls) l -> Forall (entry_ok syls) temp ->
+                        Forall (entry_ok syls) (fold_left (round_step c) l temp)).
+  { induction l as [|[k v] l IH]; cbn; intros temp Hl Ht; auto.
+    inversion Hl as [|a b Ha Hb]; subst. destruct Ha as (Hk & Hv & Hs). cbn in *.
+    apply IH; auto.
+    destruct (capply c k) as [s|].
+    - assert (H1 : Forall (entry_ok syls) (if deletion c then temp else merge k default_props v temp)).
+      { destruct (deletion c); auto. apply merge_entry_ok; auto. }
+      destruct (addition c); cbn; auto.
+      destruct (sstr s) eqn:Es; cbn; auto.
+      apply merge_entry_ok; auto. congruence.
+    - apply merge_entry_ok; auto. }
+  apply G; auto.
+Qed.
+
+Lemma round_sorted c sc : script_ok (round c sc).
+Proof.
+  unfold round.
+  assert (G : forall l temp, script_ok temp -> script_ok (fold_left (round_step c) l temp)).
+  { induction l as [|[k v] l IH]; cbn; intros temp Ht; auto.
+    apply IH. destruct (capply c k) as [s|].
+    - assert (H1 : script_ok (if deletion c then temp else merge k default_props v temp)).
+      { destruct (deletion c); auto. now apply map_upd_keys_sorted. }
+      destruct (addition c && negb (is_nil (sstr s))); auto. now apply map_upd_keys_sorted.
+    - now apply map_upd_keys_sorted. }
+  apply G. constructor.
+Qed.
+
+Lemma project_script_entry_ok syls calcs sc :
+  Forall (entry_ok syls) sc -> Forall (entry_ok syls) (project_script calcs sc).
+Proof.
+  unfold project_script. revert sc. induction calcs as [|c cs IH]; cbn; intros sc H; auto.
+  apply IH. now apply round_entry_ok.
+Qed.
+
+Lemma project_script_sorted calcs sc : script_ok sc -> script_ok (project_script calcs sc).
+Proof.
+  unfold project_script. revert sc. induction calcs as [|c cs IH]; cbn; intros sc H; auto.
+  apply IH. apply round_sorted.
+Qed.
+
+(** ** the seeded script *)
+
+Lemma add_syllable_sorted s sc : script_ok sc -> script_ok (add_syllable s sc).
+Proof.
+  intro H. unfold add_syllable. destruct (map_find s sc); auto. now apply map_upd_keys_sorted.
+Qed.
+
+Definition seed_entry (kv : bytes * list spelling) : Prop := snd kv = [spelling_of (fst kv)].
+
+Lemma map_upd_absent k f sc :
+  map_find k sc = None ->
+  In (k, f []) (map_upd k f sc) /\
+  (forall kv, In kv sc -> In kv (map_upd k f sc)) /\
+  (forall kv, In kv (map_upd k f sc) -> kv = (k, f []) \/ In kv sc).
+Proof.
+  induction sc as [|[k' v] sc IH]; cbn; intro H.
+  - repeat split; auto. intros kv [<-|[]]. auto.
+  - destruct (bytes_eqb k k') eqn:E; [discriminate|].
+    destruct (bytes_cmp k k') eqn:C.
+    + apply bytes_cmp_eq in C. subst. rewrite bytes_eqb_refl in E. discriminate.
+    + cbn. repeat split; auto. intros kv [<-|Hin]; auto.
+    + destruct (IH H) as (I1 & I2 & I3). cbn. repeat split; auto.
+      * intros kv [<-|Hin]; auto.
+      * intros kv [<-|Hin]; auto. destruct (I3 _ Hin); auto.
+Qed.
+
+Lemma add_syllable_step (all : list bytes) s sc :
+  (forall kv, In kv sc -> seed_entry kv /\ In (fst kv) all) -> In s all ->
+  (forall kv, In kv (add_syllable s sc) -> seed_entry kv /\ In (fst kv) all) /\
+  In (s, [spelling_of s]) (add_syllable s sc) /\
+  (forall kv, In kv sc -> In kv (add_syllable s sc)).
+Proof.
+  intros HP Hs. unfold add_syllable. destruct (map_find s sc) as [v|] eqn:E.
+  - repeat split; auto; try (apply HP; auto).
+    apply map_find_In in E. destruct (HP _ E) as [Hseed _]. unfold seed_entry in Hseed.
+    cbn in Hseed. now subst.
+  - destruct (map_upd_absent s (fun m => m ++ [spelling_of s]) sc E) as (I1 & I2 & I3).
+    repeat split; auto.
+    + destruct (I3 _ H) as [->|Hin]; [reflexivity|]. now apply HP.
+    + destruct (I3 _ H) as [->|Hin]; [exact Hs|]. now apply HP.
+Qed.
+
+Lemma init_script_spec syls :
+  (forall kv, In kv (init_script syls) -> seed_entry kv /\ In (fst kv) syls) /\
+  (forall s, In s syls -> In (s, [spelling_of s]) (init_script syls)).
+Proof.
+  unfold init_script.
+  assert (G : forall l sc,
+    (forall s, In s l -> In s syls) ->
+    (forall kv, In kv sc -> seed_entry kv /\ In (fst kv) syls) ->
+    (forall kv, In kv (fold_left (fun sc x => add_syllable x sc) l sc) -> seed_entry kv /\ In (fst kv) syls) /\
+    (forall s, In s l -> In (s, [spelling_of s]) (fold_left (fun sc x => add_syllable x sc) l sc)) /\
+    (forall kv, In kv sc -> In kv (fold_left (fun sc x => add_syllable x sc) l sc))).
+  { induction l as [|s l IH]; cbn; intros sc Hl HP.
+    - repeat split; auto; try (apply HP; auto). tauto.
+    - destruct (add_syllable_step syls s sc HP (Hl s (or_introl eq_refl))) as (S1 & S2 & S3).
+      destruct (IH (add_syllable s sc) (fun x Hx => Hl x (or_intror Hx)) S1) as (I1 & I2 & I3).
+      split; [exact I1|split].
+      + intros x [<-|Hx]; auto.
+      + auto. }
+  destruct (G syls [] (fun s H => H)) as (G1 & G2 & _).
+  - intros kv [].
+  - split; auto.
+Qed.
+
+Lemma init_script_sorted syls : script_ok (init_script syls).
+Proof.
+  unfold init_script.
+  assert (G : forall l sc, script_ok sc -> script_ok (fold_left (fun sc x => add_syllable x sc) l sc)).
+  { induction l as [|s l IH]; cbn; intros sc H; auto. apply IH. now apply add_syllable_sorted. }
+  apply G. constructor.
+Qed.
+
+Lemma init_script_entry_ok syls :
+  (forall s, In s syls -> s <> []) -> Forall (entry_ok syls) (init_script syls).
+Proof.
+  intro Hne. apply Forall_forall. intros [k v] Hin.
+  destruct (proj1 (init_script_spec syls) _ Hin) as [Hseed Hk]. unfold seed_entry in Hseed.
+  cbn in *. subst. unfold entry_ok. cbn. repeat split; auto; try discriminate.
+  intros x [<-|[]]. exact Hk.
+Qed.
+
+(** * The statements of C09, algebra part *)
+
+(** the script spells syllable [s] as [k] *)
+Definition spells (sc : script) (k s : bytes) : Prop :=
+  exists l x, map_find k sc = Some l /\ In x l /\ sstr x = s.
+
+Lemma covers_spells sc k x : script_ok sc -> covers sc k x -> spells sc k (sstr x).
+Proof.
+  intros Hs (l & x' & H1 & H2 & H3 & _). exists l, x'. split; [|split]; auto.
+  now apply In_map_find.
+Qed.
+
+Lemma project_snd calcs sc : snd (project calcs sc) = project_script calcs sc.
+Proof.
+  unfold project. destruct sc as [|kv sc]; cbn [is_nil snd]; auto.
+  unfold project_script. induction calcs as [|c cs IH]; cbn; auto.
+Qed.
+
+Lemma compile_script_some syls calcs sc :
+  compile_script syls calcs = Some sc ->
+  sc = project_script calcs (init_script syls) /\ sc <> [] /\
+  project_modified calcs (init_script syls) = true.
+Proof.
+  unfold compile_script. pose proof (project_snd calcs (init_script syls)) as Hp.
+  unfold project in *. destruct (is_nil (init_script syls)); cbn [snd] in Hp; [discriminate|].
+  destruct (project_modified calcs (init_script syls)); [|discriminate].
+  destruct (project_script calcs (init_script syls)) as [|kv r] eqn:E; cbn [is_nil]; [discriminate|].
+  intros [= <-]. repeat split; auto. discriminate.
+Qed.
+
+(** (a) every spelling of the resulting table denotes at least one syllable of the
+    syllabary (and only syllables of the syllabary), and is not the empty string *)
+Lemma denotes_some_syllable syls calcs k l :
+  (forall s, In s syls -> s <> []) ->
+  map_find k (project_script calcs (init_script syls)) = Some l ->
+  k <> [] /\ l <> [] /\ forall x, In x l -> In (sstr x) syls.
+Proof.
+  intros Hne Hf. apply map_find_In in Hf.
+  pose proof (project_script_entry_ok syls calcs _ (init_script_entry_ok syls Hne)) as H.
+  rewrite Forall_forall in H. exact (H _ Hf).
+Qed.
+
+Lemma script_always_sorted syls calcs : script_ok (project_script calcs (init_script syls)).
+Proof. apply project_script_sorted, init_script_sorted. Qed.
+
+(** (b) a non-deleting rule removes no (spelling, syllable) pair, and does not make
+    its type or credibility worse *)
+Lemma additive_rule_keeps c sc k l x :
+  deletion c = false -> map_find k sc = Some l -> In x l ->
+  exists l' x', map_find k (round c sc) = Some l' /\ In x' l' /\ le_sp x' x.
+Proof.
+  intros Hd Hf Hx. apply map_find_In in Hf.
+  destruct (round_keeps c sc k l x Hf Hx (or_intror Hd)) as (l' & x' & H1 & H2 & H3).
+  exists l', x'. split; [|split]; auto. apply In_map_find; auto. apply round_sorted.
+Qed.
+
+Lemma additive_rules_keep calcs sc k l x :
+  (forall c, In c calcs -> deletion c = false) ->
+  map_find k sc = Some l -> In x l ->
+  exists l' x', map_find k (project_script calcs sc) = Some l' /\ In x' l' /\ le_sp x' x.
+Proof.
+  unfold project_script. revert sc l x. induction calcs as [|c cs IH]; cbn; intros sc l x Hd Hf Hx.
+  - exists l, x. split; [|split]; auto. apply le_sp_refl.
+  - destruct (additive_rule_keeps c sc k l x (Hd c (or_introl eq_refl)) Hf Hx) as (l1 & x1 & H1 & H2 & H3).
+    destruct (IH (round c sc) l1 x1 (fun c' H => Hd c' (or_intror H)) H1 H2) as (l2 & x2 & H4 & H5 & H6).
+    exists l2, x2. split; [|split]; auto. eapply le_sp_trans; eauto.
+Qed.
+
+(** (c) one round: a pair (k, x) disappears only if the rule is deleting and matched k *)
+Lemma round_loses_only_if_matched c sc k l x :
+  map_find k sc = Some l -> In x l ->
+  ~ spells (round c sc) k (sstr x) ->
+  deletion c = true /\ capply c k <> None.
+Proof.
+  intros Hf Hx Hn. apply map_find_In in Hf.
+  destruct (capply c k) as [s|] eqn:E; [destruct (deletion c) eqn:D|].
+  - split; auto. discriminate.
+  - exfalso. apply Hn. apply covers_spells; [apply round_sorted|].
+    eapply round_keeps; eauto.
+  - exfalso. apply Hn. apply covers_spells; [apply round_sorted|].
+    eapply round_keeps; eauto.
+Qed.
+
+Definition matched_by_deleting (s : bytes) (c : calc) : bool :=
+  deletion c && match capply c s with Some _ => true | None => false end.
+
+Lemma own_name_kept calcs sc s :
+  covers sc s (spelling_of s) ->
+  (forall c, In c calcs -> matched_by_deleting s c = false) ->
+  covers (project_script calcs sc) s (spelling_of s).
+Proof.
+  unfold project_script. revert sc. induction calcs as [|c cs IH]; cbn; intros sc Hc Hall; auto.
+  apply IH; [|intros c' H; apply Hall; auto].
+  destruct Hc as (l & x' & H1 & H2 & H3).
+  eapply covers_le; [|exact H3].
+  apply (round_keeps c sc s l x' H1 H2).
+  specialize (Hall c (or_introl eq_refl)). unfold matched_by_deleting in Hall.
+  destruct (deletion c); auto. destruct (capply c s); auto; try (cbn in Hall; discriminate).
+Qed.
+
+(** (c) a syllable stops being spellable by its own name only if a deleting rule
+    (xlit, xform, erase) of the list matches the syllable's name *)
+Lemma own_name_lost_only_if_matched syls calcs s :
+  In s syls ->
+  ~ spells (project_script calcs (init_script syls)) s s ->
+  exists c, In c calcs /\ deletion c = true /\ capply c s <> None.
+Proof.
+  intros Hs Hn.
+  destruct (existsb (matched_by_deleting s) calcs) eqn:E.
+  - apply existsb_exists in E. destruct E as (c & Hc & Hm). exists c. split; auto.
+    unfold matched_by_deleting in Hm. apply andb_true_iff in Hm. destruct Hm as [Hd Ha].
+    split; auto. destruct (capply c s); [discriminate|discriminate].
+  - exfalso. apply Hn.
+    change s with (sstr (spelling_of s)) at 2.
+    apply covers_spells; [apply script_always_sorted|].
+    apply own_name_kept.
+    + exists [spelling_of s], (spelling_of s). split; [|split].
+      * apply (proj2 (init_script_spec syls)). exact Hs.
+      * left. reflexivity.
+      * apply le_sp_refl.
+    + intros c Hc. destruct (matched_by_deleting s c) eqn:Em; auto.
+      assert (Hx : existsb (matched_by_deleting s) calcs = true)
+        by (apply existsb_exists; exists c; auto).
+      congruence.
+Qed.
+
+(** as long as it is kept, the own-name spelling stays a normal spelling of full credibility *)
+Lemma own_name_stays_normal syls calcs s :
+  In s syls ->
+  (forall c, In c calcs -> matched_by_deleting s c = false) ->
+  exists l x, map_find s (project_script calcs (init_script syls)) = Some l /\ In x l /\
+              sstr x = s /\ ptype (sprops x) = kNormalSpelling /\ (0 <= pcred (sprops x))%Z.
+Proof.
+  intros Hs Hall.
+  destruct (own_name_kept calcs (init_script syls) s) as (l & x & H1 & H2 & H3 & H4 & H5); auto.
+  - exists [spelling_of s], (spelling_of s). split; [|split].
+    + apply (proj2 (init_script_spec syls)). exact Hs.
+    + left. reflexivity.
+    + apply le_sp_refl.
+  - exists l, x. cbn in *. repeat split; auto.
+    + apply In_map_find; auto. apply script_always_sorted.
+    + unfold kNormalSpelling in *. lia.
+Qed.
+
+(** * Non-vacuity: a concrete syllabary and rule list *)
+
+Module Example.
+  Definition a_ := x61. Definition b_ := x62. Definition o_ := x6f. Definition p_ := x70.
+  Definition ba := [b_; a_]. Definition bo := [b_; o_]. Definition pa := [p_; a_].
+  (** derive/^ba$/pa/ *)
+  Definition c_derive := mkCalc Derive (fun k => if bytes_eqb k ba then Some (spelling_of pa) else None).
+  (** abbrev/^(.).+$/$1/ *)
+  Definition c_abbrev := mkCalc Abbrev (fun k => match k with
+    | c :: _ :: _ => Some (mkSp [c] (mkProps kAbbreviation (-1) [])) | _ => None end).
+  (** erase/^bo$/ *)
+  Definition c_erase := mkCalc Erase (fun k => if bytes_eqb k bo then Some (spelling_of []) else None).
+  (** fuzz/^p/b/ *)
+  Definition c_fuzz := mkCalc Fuzz (fun k => match k with
+    | c :: r => if byte_eqb c p_ then Some (mkSp (b_ :: r) (mkProps kFuzzySpelling (-1) [])) else None
+    | [] => None end).
+  Definition syls := syllabary_of [pa; bo; ba; bo].
+  Definition rules := [c_derive; c_fuzz; c_abbrev; c_erase].
+  Definition result := project_script rules (init_script syls).
+
+  Lemma syls_value : syls = [ba; bo; pa].
+  Proof. vm_compute. reflexivity. Qed.
+
+  (** the table: "b" abbreviates ba, bo and (through the fuzzy "ba" of pa, two
+      penalties) pa; "ba" spells ba and, fuzzily, pa; "p" abbreviates ba and pa;
+      "pa" spells ba (derived) and pa; "bo" is erased *)
+  Lemma result_value :
+    result =
+    [ ([b_], [mkSp ba (mkProps 2 (-1) []); mkSp pa (mkProps 2 (-2) []); mkSp bo (mkProps 2 (-1) [])]);
+      (ba, [mkSp ba (mkProps 0 0 []); mkSp pa (mkProps 1 (-1) [])]);
+      ([p_], [mkSp ba (mkProps 2 (-1) []); mkSp pa (mkProps 2 (-1) [])]);
+      (pa, [mkSp ba (mkProps 0 0 []); mkSp pa (mkProps 0 0 [])]) ].
+  Proof. vm_compute. reflexivity. Qed.
+
+  Lemma modified : project_modified rules (init_script syls) = true.
+  Proof. vm_compute. reflexivity. Qed.
+
+  (** "bo" lost its own name - and the erasing rule did match it *)
+  Lemma bo_lost : ~ spells result bo bo.
+  Proof.
+    intros (l & x & H & _). rewrite result_value in H. vm_compute in H. discriminate.
+  Qed.
+  Lemma bo_matched : In c_erase rules /\ deletion c_erase = true /\ capply c_erase bo <> None.
+  Proof. split; [cbn; auto|split; [reflexivity|vm_compute; discriminate]]. Qed.
+
+  (** "ba" kept its own name: no deleting rule matches it *)
+  Lemma ba_unmatched : forall c, In c rules -> matched_by_deleting ba c = false.
+  Proof. intros c [<-|[<-|[<-|[<-|[]]]]]; vm_compute; reflexivity. Qed.
+End Example.
